@@ -35,11 +35,11 @@ const VALUE_SHIFT_BITS: usize = 3;
 
 #[allow(unused)]
 /// The max integer value we can store in a value object
-const MAX_INT: isize = std::isize::MAX >> VALUE_SHIFT_BITS;
+pub(crate) const MAX_INT: isize = std::isize::MAX >> VALUE_SHIFT_BITS;
 
 #[allow(unused)]
 /// The minimum integer value we can store in a value object
-const MIN_INT: isize = std::isize::MIN >> VALUE_SHIFT_BITS;
+pub(crate) const MIN_INT: isize = std::isize::MIN >> VALUE_SHIFT_BITS;
 
 #[derive(Debug, PartialEq)]
 #[repr(u8)]
@@ -364,7 +364,7 @@ impl PartialOrd for Object {
 }
 
 macro_rules! impl_arith {
-    ($func_name:ident, $op:tt) => {
+    ($func_name:ident, $op:tt, $checked_op:ident) => {
         #[inline(always)]
         pub(crate) fn $func_name(self, rhs: Self, gc: &mut GC) -> Result<Object, Error> {
             if self.tag() != rhs.tag() {
@@ -372,7 +372,13 @@ macro_rules! impl_arith {
             }
 
             let result = match self.tag() {
-                Type::Int => Object::int(self.as_int() $op rhs.as_int()),
+                // checked_* yields None for a zero divisor (and on overflow of the machine word)
+                Type::Int => match self.as_int().$checked_op(rhs.as_int()) {
+                    Some(value) if (MIN_INT..=MAX_INT).contains(&value) => Object::int(value),
+                    Some(_) => return Err(Error::TypeError(format!("de uitkomst van {} {} {} is te groot voor een integer", self.as_int(), stringify!($op), rhs.as_int()))),
+                    None if rhs.as_int() == 0 => return Err(Error::TypeError(format!("kan {} niet delen door nul", self.as_int()))),
+                    None => return Err(Error::TypeError(format!("de uitkomst van {} {} {} is te groot voor een integer", self.as_int(), stringify!($op), rhs.as_int()))),
+                },
 
                 // Safety: We've already asserted the object type
                 Type::Float => unsafe {
@@ -414,11 +420,11 @@ macro_rules! impl_cmp {
 }
 
 impl Object {
-    impl_arith!(add, +);
-    impl_arith!(sub, -);
-    impl_arith!(mul, *);
-    impl_arith!(div, /);
-    impl_arith!(rem, %);
+    impl_arith!(add, +, checked_add);
+    impl_arith!(sub, -, checked_sub);
+    impl_arith!(mul, *, checked_mul);
+    impl_arith!(div, /, checked_div);
+    impl_arith!(rem, %, checked_rem);
 
     impl_cmp!(gt, >);
     impl_cmp!(gte, >=);
